@@ -851,7 +851,7 @@ pub fn run(tier: Tier, seed: u64) -> i32 {
     let q = tier == Tier::Quick;
     let p0 = Params { max_dev: 0, seeds: vec![seed, seed + 1], time_limit: Duration::from_secs(if q { 25 } else { 600 }), ..Default::default() };
     rep.add("value shapes x half kinds x hops x port limits x low credit at d=0", explore("C05", grid(tier), p0, &known));
-    let p = Params { max_dev: if q { 1 } else { 2 }, seeds: vec![seed], time_limit: Duration::from_secs(if q { 25 } else { 900 }), ..Default::default() };
+    let p = Params { max_dev: 2, seeds: vec![seed], time_limit: Duration::from_secs(if q { 25 } else { 900 }), ..Default::default() };
     rep.add("core shapes under schedule exploration", explore("C05", core(tier), p, &known));
     rep.rule = "a case = (kinds of the 1..4 channel halves, container shape: vec / option+vec / map / tuple+enum / nested enum of options, hops 1..3, hand-over with queued items, max_ports incl. exhaustion, receive buffer, schedule deviations); every half is exercised with a label unique to its channel; distinct = distinct (labels observed per half on both sides, send/recv results); non-trivial = the value reached the last endpoint".into();
     rep.assumptions = vec![
